@@ -127,6 +127,7 @@ type step struct {
 }
 
 type mismatch struct {
+	Index     int    `json:"index"` // line of the behaviour in the input file
 	Step      int    `json:"step"`
 	Action    string `json:"action"`
 	Field     string `json:"field"`
@@ -307,7 +308,31 @@ func (r *runner) exec(st *step) error {
 	switch st.A {
 	case "Idle", "CoElect", "CoCrash", "CoRestart", "CoRetryNewTerm", "CoSwap":
 	case "NewTerm":
-		h, err := s.NewTerm(st.N, st.T-1)
+		// the handler syncs the WAL before it reads the head: a pending sync round completes with it
+		type ntRes struct {
+			h   *proto.EntryId
+			err error
+		}
+		ch := make(chan ntRes, 1)
+		go func() { h, err := s.NewTerm(st.N, st.T-1); ch <- ntRes{h, err} }()
+		var h *proto.EntryId
+		var err error
+		deadline := time.Now().Add(r.timeout + 5*time.Second)
+	wait:
+		for {
+			select {
+			case x := <-ch:
+				h, err = x.h, x.err
+				break wait
+			case <-time.After(2 * time.Millisecond):
+				if s.IsParked("sync", st.N, st.N) {
+					_ = s.Release("sync", st.N, st.N, time.Millisecond)
+				}
+				if time.Now().After(deadline) {
+					return fmt.Errorf("NewTerm(%s, %d) does not return", st.N, st.T)
+				}
+			}
+		}
 		if st.Ok != (err == nil) {
 			return fmt.Errorf("NewTerm(%s, %d): spec ok=%v, code error=%v", st.N, st.T, st.Ok, err)
 		}
@@ -372,7 +397,22 @@ func (r *runner) exec(st *step) error {
 			return err
 		}
 	case "Append":
-		return s.DeliverAppend(st.L, st.F)
+		if err := s.DeliverAppend(st.L, st.F); err != nil {
+			return err
+		}
+		// a duplicate of an entry that is not synced yet is synced by the handler itself
+		if x := st.Exp.Nodes[st.F]; x != nil && !x.Parked {
+			for i := 0; i < 25; i++ {
+				if s.IsParked("sync", st.F, st.F) {
+					_ = s.Release("sync", st.F, st.F, time.Millisecond)
+					break
+				}
+				if f, _ := r.compare(st.Exp); f == "" {
+					break
+				}
+				time.Sleep(2 * time.Millisecond)
+			}
+		}
 	case "Ack":
 		return s.DeliverAck(st.F, st.L)
 	case "Reset":
@@ -466,6 +506,8 @@ func workerMain(args []string) {
 	in := fs.String("in", "", "")
 	timeout := fs.Duration("timeout", 3*time.Second, "")
 	skip := fs.Int("skip", 0, "")
+	stride := fs.Int("stride", 1, "")
+	offset := fs.Int("offset", 0, "")
 	_ = fs.Parse(args)
 	slog.SetDefault(slog.New(slog.NewTextHandler(io.Discard, nil)))
 	f, err := os.Open(*in)
@@ -519,6 +561,9 @@ func workerMain(args []string) {
 				}
 				mm.What = mm.What + " -- after: " + strings.Join(calls, " ")
 			}
+		}
+		if mm != nil {
+			mm.Index = *offset + i**stride
 		}
 		_ = enc.Encode(map[string]any{"end": i, "mismatch": mm, "unconfirmed": unconfirmed})
 	}
@@ -588,11 +633,12 @@ func main() {
 		}
 		pf := fmt.Sprintf("%s.part%d", *out, w)
 		_ = os.WriteFile(pf, []byte(strings.Join(part, "\n")+"\n"), 0o644)
-		go func(pf string, n int) {
+		go func(pf string, n int, w int) {
 			var r wres
 			skip := 0
 			for skip < n && !stop.Load() {
-				cmd := exec.Command(self, "worker", "-in", pf, "-timeout", timeout.String(), "-skip", fmt.Sprint(skip))
+				cmd := exec.Command(self, "worker", "-in", pf, "-timeout", timeout.String(), "-skip", fmt.Sprint(skip),
+					"-stride", fmt.Sprint(*workers), "-offset", fmt.Sprint(w))
 				var errb strings.Builder
 				cmd.Stderr = &errb
 				outp, _ := cmd.StdoutPipe()
@@ -657,7 +703,7 @@ func main() {
 					var beh []step
 					pl := strings.Split(strings.TrimSpace(readFile(pf)), "\n")
 					_ = json.Unmarshal([]byte(pl[started]), &beh)
-					r.mm = append(r.mm, mismatch{Step: -1, Action: "?", Field: "panic", What: "node process panicked: " + msg, Behaviour: beh})
+					r.mm = append(r.mm, mismatch{Index: w + started**workers, Step: -1, Action: "?", Field: "panic", What: "node process panicked: " + msg, Behaviour: beh})
 					skip = started + 1
 				} else {
 					// died between behaviours (teardown of abandoned goroutines): not a finding
@@ -666,7 +712,7 @@ func main() {
 			}
 			_ = os.Remove(pf)
 			ch <- r
-		}(pf, len(part))
+		}(pf, len(part), w)
 	}
 	var ferr error
 	for w := 0; w < *workers; w++ {
